@@ -230,6 +230,14 @@ pub fn check_with(case: &Case, avoid: Avoid) -> Outcome {
         let band_referenced = match op {
             Op::DeleteRows { s, row, n } => crate::engine::nodes::any_formula_reads_rows(um.get_model(), ops::res_sheet(&um, *s), *row, *n),
             Op::DeleteCols { s, col, n } => crate::engine::nodes::any_formula_reads_columns(um.get_model(), ops::res_sheet(&um, *s), *col, *n),
+            // (same listed entry: a clear records the spill cells it clears as old values)
+            Op::ClearContents(a) | Op::ClearAll(a) => um
+                .get_model()
+                .workbook
+                .worksheets
+                .get(ops::res_sheet(&um, a.s) as usize)
+                .map(|ws| (a.row..a.row + a.h).any(|r| (a.col..a.col + a.w).any(|c| matches!(ws.cell(r, c), Some(Cell::SpillCell { .. })))))
+                .unwrap_or(false),
             _ => false,
         };
         if avoid_undo_delete && matches!(op, Op::Undo) && undo_stack.last().copied().unwrap_or(false) {
